@@ -128,6 +128,18 @@ impl Prop for C17 {
                 tail_unbound: None,
             });
         }
+        // "concatenated in arrival order", however much arrives: one parameter accumulating more than
+        // the 64 MiB the server advertises as max_allowed_packet, in chunks that are each far below it
+        {
+            let nchunks = match tier {
+                Tier::Quick => 5,
+                Tier::Thorough => 9,
+            };
+            let mut ops: Vec<Op> = (0..nchunks).map(|i| Op::Long { stmt: 0, param: 0, data: crate::gen::pattern(40 + i as u32, (14 << 20) + i) }).collect();
+            ops.push(Op::Exec { stmt: 0, params: vec![Param { coltype: T_BLOB, unsigned: false, value: PVal::LongData }], rebind: true, take: None, reply_err: None });
+            ops.push(Op::Exec { stmt: 0, params: vec![Param { coltype: T_BLOB, unsigned: false, value: PVal::Bytes(b"after".to_vec()) }], rebind: true, take: None, reply_err: None });
+            v.push(Case { stmts: vec![(3, 1)], ops, tail_unbound: None });
+        }
         // "delivered to exactly one execution", for every later execution: one statement executed
         // more often than 8-, 16-bit counters can tell apart (a streamed value once, then inline values)
         let many = match tier {
